@@ -112,7 +112,7 @@ REENT_BIND_OBJS := $(patsubst $(GEN)/%.c,$(REENTB)/%.o,$(BIND_SRCS))
 $(REENTB)/bind_%.o: $(GEN)/bind_%.c bindings/bind.h $(REPO_HDRS) | dirs
 	@mkdir -p $(REENTB)
 	$(CC) -std=gnu99 -O1 -g -I$(REPO)/include -Ibindings -w -c $< -o $@
-REENT_WRAPFLAGS := $(foreach w,strtok rand srand localtime gmtime ctime asctime strerror setlocale malloc calloc realloc free $(shell cat engines/reent/libc_denylist.txt),-Wl,--wrap=$(w))
+REENT_WRAPFLAGS := $(foreach w,strtok rand srand localtime gmtime ctime asctime strerror setlocale malloc calloc realloc free getenv secure_getenv $(shell cat engines/reent/libc_denylist.txt),-Wl,--wrap=$(w))
 REENT_DRV_OBJS := $(REENTB)/drv_can.o $(REENTB)/drv_canbrief.o $(REENTB)/drv_vss.o
 $(REENTB)/drv_%.o: engines/reent/drv_%.c engines/reent/drivers.h $(REPO_HDRS) | dirs
 	@mkdir -p $(REENTB)
